@@ -1111,6 +1111,23 @@ func ruleC13Member(r *Run) {
 						}
 					}
 				}
+			case *ssa.Call:
+				// a library membership test over the supported-method list: element-wise equality by contract
+				switch n := calleeName(x); {
+				case strings.HasSuffix(n, "arrutil.StringsHas") || strings.HasSuffix(n, "arrutil.InStrings") || n == "slices.Contains" || strings.HasPrefix(n, "slices.Contains["):
+					if len(x.Call.Args) == 2 {
+						if ld, ok := x.Call.Args[0].(*ssa.UnOp); ok && ld.X == ssa.Value(anyM) {
+							for _, e := range elems {
+								if x.Call.Args[1] == e {
+									exact = true
+								}
+							}
+							if _, isParam := x.Call.Args[1].(*ssa.Parameter); isParam && f != gi {
+								exact = true
+							}
+						}
+					}
+				}
 			case *ssa.Lookup:
 				// map keyed by the candidate
 				if _, isMap := x.X.Type().Underlying().(*types.Map); isMap {
